@@ -116,6 +116,19 @@ def stepC06 (st : St) (ws : List String) : St × String :=
             s!"len={ns.length} total={c} allpost={ll}:{lc}")
         | .error e => ({ st with names := ns, idx := ns.map absEntry, cached := c }, toString e)
       | none => (st, "bad-op")
+  | ["nlookup", how, nm] => match parseHex nm with
+      | some b =>
+        let (r, c) := lookupByName st.names st.cached (copyInto 28 b)
+        let out := match how, r with
+          | "edit", .ok _ => some "found"
+          | "edit", .error e => some (toString e)
+          | "cross", .ok _ => some "found"
+          | "cross", .error _ => some "err:lookup"     -- CrossPost maps every lookup error to ErrInvalidFilename
+          | _, _ => none
+        match out with
+        | some o => ({ st with cached := c }, o)
+        | none => (st, "bad-op")
+      | none => (st, "bad-op")
   | ["findlast", d] => match parseDir d with
       | some d =>
         let (r, c) := findNewest st.names st.cached d
